@@ -507,8 +507,88 @@ def check(ctx):
 
     fit_fns = [f for f in prog.functions() if fit_calls(prog, f)]
     retry_consistency(ctx, prog, fit_fns, rule_id="R6")
+    from .c16 import retry_mask_freshness
+
+    retry_mask_freshness(ctx, prog, fit_fns, rule_id="R7")
+    # ------------------------------------------------------------------ R8
+    ctx.rule("R8", "the high-density subset used to initialise the GP hyperparameter bounds is non-empty whenever one point is logged", floor=1)
+    _hpd_nonempty(ctx, prog)
     ctx.assume("numeric crash classes (division by zero, round(nan), singular matrices outside fit) are not decided")
     ctx.assume("dict.get reads and reads through local aliases of sub-dicts are not subscript reads of optim_state")
+
+
+def _fold(e, env):
+    """constant folding of a size expression over {+,-,*,/,//, round, int, ceil, floor, max, min}; None if not foldable."""
+    import math
+
+    if isinstance(e, ast.Constant) and isinstance(e.value, (int, float)) and not isinstance(e.value, bool):
+        return e.value
+    if isinstance(e, ast.Name):
+        return env.get(e.id)
+    if isinstance(e, ast.BinOp):
+        l, r = _fold(e.left, env), _fold(e.right, env)
+        if l is None or r is None:
+            return None
+        try:
+            return {ast.Add: lambda: l + r, ast.Sub: lambda: l - r, ast.Mult: lambda: l * r, ast.Div: lambda: l / r, ast.FloorDiv: lambda: l // r}[type(e.op)]()
+        except Exception:
+            return None
+    if isinstance(e, ast.Call) and len(e.args) >= 1:
+        n = call_name(e) or ""
+        a = [_fold(x, env) for x in e.args]
+        if any(x is None for x in a):
+            return None
+        if n in ("round", "np.round", "np.rint") and len(a) == 1:
+            return round(a[0])
+        if n in ("int", "math.floor", "np.floor", "math.trunc"):
+            return math.floor(a[0]) if n != "int" else int(a[0])
+        if n in ("math.ceil", "np.ceil"):
+            return math.ceil(a[0])
+        if n in ("max", "np.maximum") and len(a) == 2:
+            return max(a)
+        if n in ("min", "np.minimum") and len(a) == 2:
+            return min(a)
+    return None
+
+
+def _hpd_nonempty(ctx, prog):
+    """gpyreg's bound initialisation reduces over the subset (max/min): an empty subset raises.  The subset is
+    ``order[0:k]`` with k a rounding of frac * N; k is monotone in N, so k >= 1 for every N >= 1 iff it is >= 1 at N = 1
+    with the shipped fraction (constant folding of the size expression, not an execution of pybads)."""
+    from ..ini import Ini
+
+    fn = prog.try_function("get_hpd")
+    if fn is None:
+        ctx.undecided("no get_hpd helper")
+        ctx.rules["R8"].floor = 0
+        return
+    ini = Ini(prog.root)
+    frac = ini.number("hpd_frac")
+    params = [p for p in fn.params]
+    fparam = params[2] if len(params) > 2 else None
+    # N: first element of the unpacked shape of the first parameter
+    nname = None
+    for t, v, s, k in iter_stores(fn.node):
+        if isinstance(t, ast.Name) and k == "assign[0]" and isinstance(v, ast.Attribute) and v.attr == "shape":
+            nname = t.id
+    sizes = []
+    for node in ast.walk(fn.node):
+        if isinstance(node, ast.Subscript) and isinstance(node.slice, ast.Slice) and node.slice.upper is not None and isinstance(node.slice.upper, ast.Name) and node.slice.lower is not None and const_num(node.slice.lower) == 0:
+            sizes.append((node, node.slice.upper.id))
+        elif isinstance(node, ast.Subscript) and isinstance(node.slice, ast.Slice) and isinstance(node.slice.upper, ast.Name) and node.slice.lower is None:
+            sizes.append((node, node.slice.upper.id))
+    if not sizes or nname is None or frac is None:
+        ctx.undecided("size expression of the high-density subset not recognised")
+        ctx.rules["R8"].floor = 0
+        return
+    for node, kname in sizes:
+        defs = [v for t, v, s, k in iter_stores(fn.node) if isinstance(t, ast.Name) and t.id == kname and v is not None]
+        for d in defs:
+            k1 = _fold(d, {nname: 1, fparam: float(frac)} if fparam else {nname: 1})
+            if k1 is None:
+                ctx.undecided(f"size expression '{canon(d)}' is not foldable")
+                continue
+            ctx.check(k1 >= 1, fn, node, f"subset size {canon(d)} = {k1} at N = 1 (fraction {frac})", f"the subset size '{canon(d)}' is {k1} when a single point is logged (fraction {frac}): the empty subset makes the GP's bound initialisation raise and optimize() aborts", construct=f"hpd size {canon(d)} = {k1} at N=1")
 
 
 def _rank(prog, fn, e, at, arrays, depth) -> Optional[int]:
